@@ -277,3 +277,18 @@ func diff(a, b snapshot) []change {
 	}
 	return out
 }
+
+// diffNew returns the items of b whose names do not occur in a (objects registered since a was taken).
+func diffNew(a, b snapshot) snapshot {
+	idx := make(map[string]bool, len(a))
+	for _, it := range a {
+		idx[it.Name] = true
+	}
+	var out snapshot
+	for _, it := range b {
+		if !idx[it.Name] {
+			out = append(out, it)
+		}
+	}
+	return out
+}
